@@ -179,3 +179,68 @@ Example C09_one3d_hyp_inhabited :
   o_wf C09_one3d_example = true /\ o_readable C09_one3d_example = true /\ o_distinct C09_one3d_example = true
   /\ length (o_enc C09_one3d_example) = 36%nat.
 Proof. vm_compute. repeat split; reflexivity. Qed.
+
+(* ======================================================================================================
+   CAMx TEMPERATURE and HEIGHT/PRESSURE files, Model/TempHp.v (reader models hand-modelled from
+   camxfiles/temperature/Memmap.py and camxfiles/height_pressure/Memmap.py)
+   ====================================================================================================== *)
+From PNC Require Import Model.TempHp Proofs.TempHpProofs.
+
+Theorem C09_temperature_dec_enc : forall c, t_wf c = true -> t_dec (t_nx c) (t_ny c) (t_nz c) (t_enc c) = Some c.
+Proof. exact t_dec_enc. Qed.
+Print Assumptions C09_temperature_dec_enc.
+
+Theorem C09_heightpres_dec_enc : forall c, h_wf c = true -> h_dec (h_nx c) (h_ny c) (h_nz c) (h_enc c) = Some c.
+Proof. exact h_dec_enc. Qed.
+Print Assumptions C09_heightpres_dec_enc.
+
+(* the Memmap reader models present exactly the encoded content of every well-formed file with two or more steps
+   whose second time stamp differs from the first *)
+Theorem C09_temperature_reader_presents_content : forall c, t_wf c = true -> t_readable c = true ->
+  t_mm_read (t_ny c) (t_nx c) (t_enc c) (4 * Z.of_nat (length (t_enc c))) = Ok (t_view_of c).
+Proof. exact t_mm_read_enc. Qed.
+Print Assumptions C09_temperature_reader_presents_content.
+
+Theorem C09_heightpres_reader_presents_content : forall c, h_wf c = true -> h_readable c = true ->
+  h_mm_read (h_ny c) (h_nx c) (h_enc c) (4 * Z.of_nat (length (h_enc c))) = Ok (h_view_of c).
+Proof. exact h_mm_read_enc. Qed.
+Print Assumptions C09_heightpres_reader_presents_content.
+
+(* single-step files (known findings region 11), witnesses replayed on the library: a one-step temperature file with
+   3 layers and a one-step height_pressure file raise; a one-step temperature file with ONE layer opens with fabricated
+   dimensions TSTEP = 2, LAY = 0 (the for loop falls through) *)
+Definition C09_temperature_single (nz : nat) : temperature :=
+  {| t_nx := 2; t_ny := 1; t_nz := Z.of_nat nz;
+     t_steps := [TStep 0 4001 [1065353216; 1073741824] (repeat [1077936128; 1082130432] nz)] |}.
+Theorem C09_temperature_single_step_refuted :
+  (let c := C09_temperature_single 3 in
+   t_wf c = true /\ t_mm_read (t_ny c) (t_nx c) (t_enc c) (4 * Z.of_nat (length (t_enc c))) = Err) /\
+  (let c := C09_temperature_single 1 in
+   t_wf c = true /\ exists v, t_mm_read (t_ny c) (t_nx c) (t_enc c) (4 * Z.of_nat (length (t_enc c))) = Ok v
+                              /\ tv_ntimes v = 2 /\ tv_nz v = 0).
+Proof. vm_compute. repeat split; try reflexivity. eexists. repeat split; reflexivity. Qed.
+Print Assumptions C09_temperature_single_step_refuted.
+
+Theorem C09_heightpres_single_step_refuted :
+  exists c, h_wf c = true /\ length (h_steps c) = 1%nat /\
+            h_mm_read (h_ny c) (h_nx c) (h_enc c) (4 * Z.of_nat (length (h_enc c))) = Err.
+Proof.
+  exists {| h_nx := 2; h_ny := 1; h_nz := 2;
+            h_steps := [HStep 0 4001 [([1; 2], [3; 4]); ([5; 6], [7; 8])]] |}.
+  vm_compute. repeat split; reflexivity.
+Qed.
+Print Assumptions C09_heightpres_single_step_refuted.
+
+Definition C09_temperature_example : temperature :=
+  {| t_nx := 2; t_ny := 1; t_nz := 2;
+     t_steps := [TStep 1120403456 4001 [1; 2] [[3; 4]; [5; 6]]; TStep 1128792064 4001 [11; 12] [[13; 14]; [15; 16]];
+                 TStep 1133903872 4001 [21; 22] [[23; 24]; [25; 26]]] |}.
+Definition C09_heightpres_example : heightpres :=
+  {| h_nx := 2; h_ny := 1; h_nz := 2;
+     h_steps := [HStep 1120403456 4001 [([1; 2], [3; 4]); ([5; 6], [7; 8])];
+                 HStep 1128792064 4001 [([11; 12], [13; 14]); ([15; 16], [17; 18])]] |}.
+Example C09_temphp_hyp_inhabited :
+  t_wf C09_temperature_example = true /\ t_readable C09_temperature_example = true /\
+  h_wf C09_heightpres_example = true /\ h_readable C09_heightpres_example = true /\
+  length (t_enc C09_temperature_example) = 54%nat /\ length (h_enc C09_heightpres_example) = 48%nat.
+Proof. vm_compute. repeat split; reflexivity. Qed.
